@@ -353,7 +353,14 @@ func check(prop, tier string) int {
 	states := map[uint64]struct{}{}
 	trouble := ""
 	var crashed atomic.Int32
+	only := os.Getenv("VERIF_UNITS") // investigation aid: comma-separated unit names, whole budget each
 	for _, u := range pd.Units {
+		if only != "" {
+			if !contains(strings.Split(only, ","), u.Name) {
+				continue
+			}
+			u.Share = 1
+		}
 		bin := build(u, scratch)
 		ub := time.Duration(float64(budget)*u.Share*1000) * time.Millisecond
 		var wg sync.WaitGroup
@@ -394,11 +401,10 @@ func check(prop, tier string) int {
 		}
 		all = append(all, ur)
 	}
-	if trouble != "" {
-		fmt.Fprintln(os.Stderr, "verif: "+trouble)
-		return 2
-	}
-
+	// Trouble in one child (a harness assertion, a build problem, a watchdog
+	// trip that could not be attributed) never hides what the other children
+	// and units found: violations are still reported (exit 1); with none, the
+	// trouble is the result (exit 2, nothing written as evidence).
 	// merge
 	runs, nontriv := 0, 0
 	var events, simNs, tapeVals int64
@@ -474,6 +480,13 @@ func check(prop, tier string) int {
 		fmt.Printf("VIOLATION property=%s replay=%s\n", prop, path)
 		fmt.Printf("  signature: %s\n  detail: %s\n  unit=%s seed=%d run=%d tape %d -> %d values, seen %d times\n", e.f.Sig, firstLines(e.f.V.Detail, 14), e.u.Name, e.f.Seed, e.f.Run, e.f.OrigLen, len(e.f.Tape), e.f.Count)
 		vlist = append(vlist, map[string]any{"signature": e.f.Sig, "known": false, "count": e.f.Count, "unit": e.u.Name, "replay": path})
+	}
+	if trouble != "" {
+		fmt.Fprintln(os.Stderr, "verif: "+trouble)
+		if violations == 0 {
+			return 2
+		}
+		fmt.Fprintln(os.Stderr, "verif: (the trouble above is reported next to the violations found by the other children)")
 	}
 	wall := time.Since(start).Seconds()
 	var zero []string
